@@ -3,8 +3,8 @@ An induction principle for `TraitType` (a nested inductive: sub-traits sit in
 lists), written once so that the property proofs need no boilerplate.
 -/
 import TraitsVerif.Model.PyValidate
-namespace TraitsVerif.Model
-open TraitsVerif TraitsVerif.Py
+namespace TraitsVerif.Model.Val
+open TraitsVerif TraitsVerif.Py.Value
 
 /-- The sub-traits of a trait type that holds a list of them. -/
 def TraitType.subs : TraitType → Option (List TraitType)
@@ -52,4 +52,4 @@ theorem TraitType.inductL' {P : TraitType → Prop} {Q : List TraitType → Prop
       (TraitType.inductL' atomic noFast node nil cons ts)
 end
 
-end TraitsVerif.Model
+end TraitsVerif.Model.Val
